@@ -1105,3 +1105,20 @@ def replay(ctx, case):
             print("  %-4s exit %d ver=%s listed=%s created=%s changed=%s" % (r["m"], r["rc"], r["ver"], r["listed"][:6], r["created"][:6], [c[:2] for c in r["changes"]][:4] if r["m"] != "run" else "-"))
         else:
             print("  probe %s (%s): influences=%s listed=%s" % (r["file"], r["class"], r["influences"], r["listed"]))
+
+
+# ---- system-level run spec (specs/NnvgRun*.tla): the recorded runs of the repository's own test suite and of a driver, judged for this property's clauses
+from .. import suite as g1  # noqa: E402
+
+_run_own, _replay_own = run, replay
+
+
+def run(ctx):  # noqa: F811
+    _run_own(ctx)
+    g1.run_suite_traces(ctx, g1.clauses_of("C08"))
+
+
+def replay(ctx, case):  # noqa: F811
+    if g1.is_case(case):
+        return g1.replay(ctx, case, g1.clauses_of("C08"))
+    return _replay_own(ctx, case)
